@@ -431,7 +431,7 @@ func init() {
 	register(&Check{ID: "C03", Level: "model_checking",
 		Run: func(rc *engine.RunCtx) *engine.Result {
 			res := engine.NewResult()
-			sizes := []int{1, 2, 3, 5}
+			sizes := []int{1, 2, 5}
 			bits := 1
 			depth := 4
 			if rc.Thorough() {
